@@ -20,7 +20,7 @@ P = {
  "C08": ("LibTrace", "TLA+ spec with stream state (usedIv: consumed intervals of the substituted crypto/rand.Reader) + TLC trace validation of recorded RandomSecret histories, sequential and concurrent (concurrent calls held at a rendezvous inside the substituted source) and of TLC-generated call histories (LibGen)", "5/C08"),
  "C09": ("Taint", "TLA+ information-flow transition system (spec/Taint.tla) instantiated with the SSA data-flow graph re-extracted from the current tree (native, js/wasm, REST); TLC computes the taint fixpoint and checks NoLeak + non-vacuity", "5/C09"),
  "C10": ("LibTrace", "TLA+ spec: reply relation total over values/errors only (Returned) for every exported operation + TLC trace validation of calls with extreme arguments under recover() and a watchdog, in both build configurations (native; harness compiled for js/wasm and run under Node for the functions exported only there)", "5/C10"),
- "C11": ("Pools", "TLA+ model of the pooled-buffer protocol (spec/Pools.tla) model-checked exhaustively (2-3 callers x adversary x GC); TLC-generated behaviours replayed on the real code through scheduler gates and validated by PoolsTrace; TLC-generated sequential histories (LibGen) compared call by call with fresh-process runs; free-running race-detector tier validated against the sequential specification", "5/C11"),
+ "C11": ("Pools", "TLA+ model of the pooled-buffer protocol (spec/Pools.tla) model-checked exhaustively (2-3 callers x adversary x GC) and, for any number of calls per caller, by an inductive invariant discharged with Apalache (spec/PoolsInd.tla); TLC-generated behaviours replayed on the real code through scheduler gates and validated by PoolsTrace; TLC-generated sequential histories (LibGen) compared call by call with fresh-process runs; free-running race-detector tier validated against the sequential specification", "5/C11"),
  "C12": ("LibTrace", "TLA+ frame conditions (FrameFails: argument memory incl. spare capacity, defaults, registry, retained results) + TLC trace validation of recorded memory snapshots, incl. TLC-generated call histories (LibGen)", "5/C12"),
  "C14": ("LibTrace", "TLA+ spec (RFC6287: SuiteUsable, Admissible) + TLC trace validation of the length grid 0..140 per field and the usability grid through Validate/Generate/ValidateOCRA", "5/C14"),
  "C15": ("LibTrace", "TLA+ spec (RFC6287: Reading = independent grammar reading of suite strings) + TLC trace validation of NewRawSuite/ListSuites/IsKnownSuite/SuiteConfigFromRaws over advertised names, grammar enumeration and malformed classes", "5/C15"),
